@@ -640,6 +640,7 @@ type session struct {
 	names     []nameInfo
 	staked    map[int]bool
 	history   []string // per block: compact description (for the replay)
+	last      *produced
 	reps      int
 }
 
@@ -801,7 +802,13 @@ func (s *session) candidates(bi *types.BlockHeaderInfo) ([]cand, []string) {
 			if rng.Chance(1, 3) {
 				body.Amount = amt(int64(rng.Intn(4)), 18)
 			}
-			if strings.Contains(string(body.Payload), `"err":"system"`) {
+			if rng.Chance(1, 8) {
+				// the VM hands out balance to a brand-new account, then reports a negative fee: contract.Execute returns
+				// ErrVmStart (not a runtime error), the tx fails and everything it wrote must be rolled back
+				fresh := append([]byte{3}, rng.Bytes(32)...)
+				body.Payload = []byte(fmt.Sprintf(`{"fee":"-5","xfers":[{"to":"%s","amt":"0"}],"sets":[{"k":"k1","v":"77"}]}`, hex.EncodeToString(fresh)))
+				kind = "call-negfee"
+			} else if strings.Contains(string(body.Payload), `"err":"system"`) {
 				kind = "call-syserr"
 			} else if strings.Contains(string(body.Payload), `"err":"vm"`) {
 				kind = "call-vmerr"
@@ -917,7 +924,11 @@ func receiptsBytes(rs *types.Receipts) string {
 
 // tieInState: the BP tally of the producer's state holds two candidates with equal votes that agree from byte 7 on
 func (s *session) tieInState() bool {
-	scs, err := statedb.GetSystemAccountState(s.P.cs.SDB().GetStateDB())
+	sdb := s.P.cs.SDB().GetStateDB()
+	if s.last != nil && s.last.bs != nil {
+		sdb = s.last.bs.StateDB // the state the producer reached with the block under test
+	}
+	scs, err := statedb.GetSystemAccountState(sdb)
 	if err != nil {
 		return false
 	}
@@ -980,6 +991,7 @@ func (s *session) step() bool {
 		s.fail("the producer path panics: "+out, nil)
 		return false
 	}
+	s.last = p
 	if p.err != nil {
 		s.history = append(s.history, desc+" producer error "+p.err.Error())
 		s.fail("the producer path failed to build a block: "+p.err.Error(), nil)
